@@ -77,6 +77,18 @@ Fourth wave (`SQLiteTLE.write_tle_txt`, `fetch_tles.run`):
   dispatch     `isinstance(x, dict)` on what a downloader method delivered (`Fetched`: dict source -> entries, or list): inside
                each branch the name holds the value of that kind; `getattr(obj, name)` as a parameter returning a callable
 
+Fifth wave (the bulk readers behind `Downloader`, `get_equatorial_crossing_time`):
+  expressions  `[e for x in xs]` (one `for`, no `if`): `mapM` — the first exception ends it; `Cls(args)` for a class of the
+               same module whose `__init__` is translated: a new object (the value of the translated `__init__`); `sep.join`
+               of items that may be None (TypeError)
+  closures     a nested `def` that reads locals of the enclosing function is translated with those locals (and `self`) as
+               leading parameters (`FnSpec(captured=...)`); its name used as a value is the closure over their current values
+               (assigning a captured local afterwards is refused); a parameter that takes such a closure and works on the
+               object's slots is declared `stateful="@Cls"`
+  statements   `warnings.warn(msg, stacklevel=k)` (not kept; the message is evaluated); a test `param == "literal"` on a
+               parameter the translation is specialised to prunes the dead branch; a hoisted local may be rebound to another
+               type at the top level
+
 Guards that keep the value semantics of the translation equal to Python's reference semantics (refusal otherwise):
   a local that may be unbound where it is read; a container that is changed in place while reachable under two names; a
   container parameter changed in place; a loop body that changes what the loop iterates over; a `try` body of more than
@@ -151,6 +163,8 @@ def lean_type(t):
             return t[1]
         if t[0] == "fn":
             return "(" + " → ".join([lean_type(x) for x in t[1]] + ["M " + lean_type(t[2])]) + ")"
+        if t[0] == "fnms":
+            return "(" + " → ".join([lean_type(x) for x in t[1]] + ["MS %s %s" % (HEAP_TYPES[t[3]], lean_type(t[2]))]) + ")"
         if t[0] == "opt":
             return "(Option %s)" % lean_type(t[1])
         if t[0] == "list":
@@ -184,10 +198,13 @@ def type_vars(t, acc):
         elif t[0] == "self":
             for v in SELF_TVARS[t[1]]:
                 acc.add(v)
-        elif t[0] == "fn":
+        elif t[0] in ("fn", "fnms"):
             for x in t[1]:
                 type_vars(x, acc)
             type_vars(t[2], acc)
+            if t[0] == "fnms":
+                for v in HEAP_TVARS[t[3]]:
+                    acc.add(v)
         else:
             for x in t[1:]:
                 type_vars(x, acc)
@@ -321,7 +338,9 @@ class Ext:
 
     def lean_sig(self):
         ret = lean_type(self.ret)
-        if self.stateful:
+        if self.stateful and self.stateful.startswith("@"):
+            ret = "MS %s %s" % (HEAP_TYPES[self.stateful[1:]], ret)
+        elif self.stateful:
             ret = "MS %s %s" % (self.stateful, ret)
         elif self.mon:
             ret = "M " + ret
@@ -550,6 +569,37 @@ ABS_METHODS[("Archive", "write_tle_txt")] = Ext("archive_write_tle_txt", [ARCH],
                                                 argnames=["self"], stateful="AS")
 ABS_METHODS[("Archive", "close")] = Ext("archive_close", [ARCH], "unit", ["Exception"], "`db.close()`", argnames=["self"],
                                         stateful="AS")
+XE = ("abs", "XmlElem")
+CUTS += [
+    ("_A['downloaders']['read_tle_files']['paths']",
+     Ext("config_read_tle_files_paths", [("abs", "Config")], lst("str"), ["KeyError", "TypeError"],
+         "`config[\"downloaders\"][\"read_tle_files\"][\"paths\"]`")),
+    ("_A['downloaders']['read_xml_admin_messages']['paths']",
+     Ext("config_read_xml_admin_messages_paths", [("abs", "Config")], lst("str"), ["KeyError", "TypeError"],
+         "`config[\"downloaders\"][\"read_xml_admin_messages\"][\"paths\"]`")),
+    ("_group_iterable_to_chunks(2, _A)",
+     Ext("group_chunks_2", [lst("str")], lst(lst(opt("str"))), [],
+         "`_group_iterable_to_chunks(2, data)` (zip_longest): consecutive pairs, the last one filled with None")),
+    ("_A.find(_B).text", Ext("xml_find_text", [XE, "str"], opt("str"), ["AttributeError"],
+                             "`elem.find(path).text`: the text (None for an empty element); AttributeError when nothing is found")),
+]
+EXTERNALS["ET.parse"] = Ext("ET_parse", ["str"], ("abs", "XmlTree"), ["OSError", "xml.ParseError"], "`ET.parse(fname)`")
+ABS_METHODS[("XmlTree", "getroot")] = Ext("xml_getroot", [("abs", "XmlTree")], XE, [], "`tree.getroot()`", argnames=["self"])
+ABS_METHODS[("XmlElem", "findall")] = Ext("xml_findall", [XE, "str"], lst(XE), [], "`elem.findall(path)`: in document order",
+                                          argnames=["self", "path"])
+TA = ("abs", "TimeArg")
+CUTS += [
+    ("np.datetime64(int(_A), _B).astype(dt.datetime)",
+     Ext("datetime_of_ticks", [F, "str"], UTC, ["OverflowError", "ValueError"],
+         "`np.datetime64(int(x), unit).astype(dt.datetime)`: the datetime of a tick count")),
+    ("np.datetime64(int(_A), _B)", Ext("datetime64_of_ticks", [F, "str"], TA, ["OverflowError", "ValueError"],
+                                        "`np.datetime64(int(x), unit)`: the datetime64 of a tick count")),
+    ("optimize.bisect(_A, a=np.datetime64(_B, time_unit).astype(np.int64), b=np.datetime64(_C, time_unit).astype(np.int64), rtol=_D)",
+     Ext("bisect_ticks", [("fnms", (F,), F, "Orbital"), TA, TA, F], F, ["ValueError"],
+         "`optimize.bisect(f, a=np.datetime64(tstart, \"us\").astype(np.int64), b=np.datetime64(tend, \"us\").astype(np.int64), "
+         "rtol=rtol)`: scipy's bisection on the tick interval; it calls `f` (which works on the cached node of the object); "
+         "ValueError when `f` has the same sign at both ends", stateful="@Orbital")),
+]
 GLOBALS["SGDP4_ZERO_ECC"] = Ext("SGDP4_ZERO_ECC", [], "int", [], "module constant `SGDP4_ZERO_ECC`")
 GLOBALS["SGDP4_NEAR_NORM"] = Ext("SGDP4_NEAR_NORM", [], "int", [], "module constant `SGDP4_NEAR_NORM`")
 GLOBALS["PLATFORM_VALUES"] = Ext("PLATFORM_VALUES", [], "str", [], "module constant `PLATFORM_VALUES` (SQL text)")
@@ -593,7 +643,8 @@ class Const:
 
 class FnSpec:
     def __init__(self, module, qualname, params, cls=None, int_is_cut=False, special=None, lean=None, ret=None, cuts=(),
-                 locals_=None, maybe_unbound=(), npvals=False, heap=None):
+                 locals_=None, maybe_unbound=(), npvals=False, heap=None, captured=None):
+        self.captured = captured              # a nested def: the (name, type) of the enclosing function's locals it reads (and `self`)
         self.heap = heap                      # a module-level function working on one stateful object (its state: the heap)
         self.npvals = npvals                  # `np.timedelta64(k, unit)` is a tagged value (`Np.Val`), not a `TimeOps` term
         self.maybe_unbound = set(maybe_unbound)   # locals that may be read while unbound (UnboundLocalError): held as Option
@@ -640,6 +691,12 @@ SPEC = [
     FnSpec("tlefile", "_get_first_tle", [lst("filearg"), "fnref", "str"]),
     FnSpec("tlefile", "Tle._read_tle", [], cls="Tle", cuts=["_get_uris_and_open_func", "_get_first_tle"]),
     FnSpec("tlefile", "Tle.__init__", ["str", "filearg", opt("str"), opt("str")], cls="Tle"),
+    FnSpec("tlefile", "collect_filenames", [lst("str")]),
+    FnSpec("tlefile", "_parse_tles_for_downloader", [lst("filearg"), "fnref"]),
+    FnSpec("tlefile", "read_tle_from_mmam_xml_file", ["str"]),
+    FnSpec("tlefile", "read_tles_from_mmam_xml_files", [lst("str")]),
+    FnSpec("tlefile", "Downloader.read_tle_files", [], cls="Downloader"),
+    FnSpec("tlefile", "Downloader.read_xml_admin_messages", [], cls="Downloader"),
     FnSpec("tlefile", "read_platform_numbers", ["str", "bool", Const(False)], locals_={"out_dict": ("dict", "str", "str")}),
     FnSpec("orbital", "_SGDP4.propagate", [("abs", "TimeArg")], cls="_SGDP4"),
     FnSpec("orbital", "Orbital.get_last_an_time", [("abs", "TimeArg")], cls="Orbital", maybe_unbound=["t_mid"]),
@@ -647,6 +704,10 @@ SPEC = [
            cuts=["get_last_an_time"]),
     FnSpec("orbital", "Orbital.get_orbit_number", [("abs", "TimeArg"), "bool", Const(False)], cls="Orbital",
            cuts=["get_last_an_time"]),
+    FnSpec("orbital", "Orbital.get_equatorial_crossing_time._nprime", [F], cls="Orbital",
+           captured=[("offset", "int"), ("time_unit", "str")], lean="Orbital.crossing_nprime_int"),
+    FnSpec("orbital", "Orbital.get_equatorial_crossing_time._nprime", [F], cls="Orbital",
+           captured=[("offset", F), ("time_unit", "str")], lean="Orbital.crossing_nprime_float"),
     FnSpec("orbital", "Orbital.get_next_passes", [UTC, "int", F, F, F, F, F], cls="Orbital",
            locals_={"risetime": opt(UTC), "risemins": opt(F)}),
     FnSpec("tlefile", "SQLiteTLE.__init__", ["str", ("dict", "int", "str"), ("abs", "WriterConfig")], cls="SQLiteTLE"),
@@ -661,6 +722,10 @@ SPEC = [
     FnSpec("orbital", "_get_tz_unaware_utctime", [NPV], npvals=True),
     FnSpec("orbital", "Orbital.utc2local", [UTC], cls="Orbital"),
     FnSpec("orbital", "_get_max_parab", [FFN, F, F, F], cuts=["_get_min_bounded"]),
+    FnSpec("orbital", "Orbital.get_equatorial_crossing_time", [TA, TA, Const("ascending"), "bool", F], cls="Orbital",
+           ret=opt(UTC)),
+    FnSpec("orbital", "Orbital.get_equatorial_crossing_time", [TA, TA, Const("descending"), "bool", F], cls="Orbital",
+           ret=opt(UTC)),
     FnSpec("fetch_tles", "run", [], heap=("abs", "AS")),
     FnSpec("tlefile", "Downloader.fetch_spacetrack", [], cls="Downloader"),
     FnSpec("tlefile", "Downloader.fetch_plain_tle", [], cls="Downloader",
@@ -695,6 +760,15 @@ def find_def(tree, qualname):
     if not isinstance(node, ast.FunctionDef):
         raise TransError("%s is not a function" % qualname)
     return node
+
+
+_PARSED = {}
+
+
+def _parsed(pat):
+    if pat not in _PARSED:
+        _PARSED[pat] = ast.parse(pat, mode="eval").body
+    return _PARSED[pat]
 
 
 def match_pattern(pat, node, holes):
@@ -781,6 +855,7 @@ class FnTrans:
         self.file_log = any(isinstance(x, ast.With) and len(x.items) == 1 and isinstance(x.items[0].context_expr, ast.Call)
                             and ast.unparse(x.items[0].context_expr.func) == "open" and len(x.items[0].context_expr.args) == 2
                             and ast.unparse(x.items[0].context_expr.args[1]) == "'w'" for x in ast.walk(node))
+        self.closure_captured = set()
         self.fp_raise = False    # inside `with np.errstate(invalid="raise")`
         self.fp_used = False
         self.stateful = False
@@ -839,14 +914,28 @@ class FnTrans:
         names = [x.arg for x in a.args]
         self.params = []
         defaults = dict(zip(names[len(names) - len(a.defaults):], a.defaults))
-        if self.cls is not None:
+        if self.cls is not None and spec.captured is None:
             if not names or names[0] != "self":
                 raise TransError("%s: first parameter is not self" % spec.qualname)
             names = names[1:]
+        cap_params = []
+        if spec.captured is not None:
+            # a nested def as a closure: the captured locals are leading parameters; it must not assign them
+            for cn, ct in spec.captured:
+                for x in ast.walk(node):
+                    if isinstance(x, ast.Name) and x.id == cn and isinstance(x.ctx, ast.Store):
+                        raise TransError("%s: assigns the captured local %s" % (spec.qualname, cn))
+                    if isinstance(x, (ast.Nonlocal, ast.Global)):
+                        raise TransError("%s: nonlocal / global" % spec.qualname)
+                cap_params.append((cn, ct))
         self.consts = {}
         if len(spec.params) != len(names):
             raise TransError("%s: %d parameters declared in the translator's table, the source has %d" % (
                 spec.qualname, len(spec.params), len(names)))
+        for n, t in cap_params:
+            self.params.append((n, t))
+            self.env[n] = t
+            self.assigned.add(n)
         for n, t in zip(names, spec.params):       # types are declared by position: renaming a parameter is harmless
             if isinstance(t, Const):
                 self.consts[n] = t.value
@@ -885,7 +974,7 @@ class FnTrans:
         self.ret = ret
         lines = []
         for n, t in self.hoist.items():
-            lines.append("  let mut %s : %s := %s" % (self.ln(n), lean_type(t), placeholder(t)))
+            lines.append("  let mut %s : %s := %s" % (lname(n), lean_type(t), placeholder(t)))
         for n, t in self.maybe_types.items():
             lines.append("  let mut %s : Option %s := none" % (self.ln(n), lean_type(t)))
         if self.cls is not None:
@@ -949,7 +1038,11 @@ class FnTrans:
                                                      ast.unparse(node)[:100] if isinstance(node, ast.AST) else node))
 
     def use_ext(self, ext):
-        if ext.stateful:
+        if ext.stateful and ext.stateful.startswith("@"):
+            if self.spec.cls != ext.stateful[1:]:
+                raise TransError("%s: the external %s works on the slots of another class" % (self.spec.qualname, ext.param))
+            self.stateful = True
+        elif ext.stateful:
             own = self.cls.get("heap") if self.cls is not None else self.spec.heap
             if own != ("abs", ext.stateful):
                 raise TransError("%s: the external %s works on the store of another class" % (self.spec.qualname, ext.param))
@@ -1072,7 +1165,7 @@ class FnTrans:
         # expression cut points first
         for pat, ext in CUTS:
             holes = {}
-            if match_pattern(ast.parse(pat, mode="eval").body, node, holes):
+            if match_pattern(_parsed(pat), node, holes):
                 args = []
                 for k_, t in zip(sorted(holes), ext.args):
                     a_ = self.expr(holes[k_])
@@ -1084,7 +1177,7 @@ class FnTrans:
                 return E("%s %s" % (ext.param, " ".join(paren(a.sub()) for a in args)), ext.ret, ext.mon)
         for pat, fn, tys, ret, mon, _ in NP_PATTERNS:
             holes = {}
-            if match_pattern(ast.parse(pat, mode="eval").body, node, holes):
+            if match_pattern(_parsed(pat), node, holes):
                 saved = (list(self.ext_used), self.tmp)
                 try:
                     args = [self.expr(holes[k_]) for k_ in sorted(holes)]
@@ -1157,6 +1250,26 @@ class FnTrans:
             g = GLOBALS[name]
             self.use_ext(g)
             return E(g.param, g.ret)
+        if name in self.nested_defs:
+            qual_ = self.spec.qualname + "." + name
+            for d in self.done:
+                if d.spec.qualname == qual_ and d.spec.captured is not None and \
+                        all(self.env.get(cn) == ct and cn in self.assigned for cn, ct in d.spec.captured):
+                    # the closure over the current values of the captured locals (they are not assigned afterwards: checked)
+                    for cn, _ in d.spec.captured:
+                        self.closure_captured.add(cn)
+                    for x in d.ext_params:
+                        self.use_ext(x)
+                    self.float_ops |= d.float_ops
+                    self.float_arith |= d.float_arith
+                    self.time_ops |= d.time_ops
+                    self.stateful |= d.stateful
+                    args_ = [x.param for x in d.ext_params] + ["self"] + [self.ln(cn) for cn, _ in d.spec.captured]
+                    nparams = [t for _, t in d.params[len(d.spec.captured):]]
+                    if len(nparams) != 1:
+                        raise self.err(n, "a closure of %d parameters" % len(nparams))
+                    kind = "fnms" if d.stateful else "fn"
+                    return E("(fun x__ => %s %s x__)" % (d.lean_name, " ".join(args_)), (kind, tuple(nparams), d.ret, self.spec.cls))
         if name in self.nested_defs or name in self.mod.toplevel_funcs or name in FNREF_IMPORTS:
             self.fnrefs.add(name)
             return E("FnRef.%s" % lname(name), "fnref")
@@ -1437,6 +1550,34 @@ class FnTrans:
                 acc = E("(%s %s %s)" % (e.sub(), "&&" if is_and else "||", acc.code), "bool", False)
         return acc
 
+    def e_ListComp(self, n):
+        """`[e for x in xs]` (one `for`, no `if`): the elements in order; the first exception ends it"""
+        if len(n.generators) != 1:
+            raise self.err(n, "comprehension with several `for`")
+        g = n.generators[0]
+        if g.ifs or g.is_async or not isinstance(g.target, ast.Name):
+            raise self.err(n, "comprehension with `if` / a target that is not a name")
+        var = g.target.id
+        if var in self.env or var in self.hoist or var in self.consts or var in self.scoped_out:
+            raise self.err(n, "the comprehension variable re-uses the name of another local")
+        it = self.seqlike(self.expr(g.iter), g.iter)
+        el = "char" if it.ty == "str" else it.ty[1]
+        self.env[var] = el
+        self.assigned.add(var)
+        try:
+            e = self.expr(n.elt)
+            if isinstance(e, CallE) and (e.done.writes_self or e.iter_args):
+                raise self.err(n, "the element expression changes an object / an iterator")
+        finally:
+            del self.env[var]
+            self.assigned.discard(var)
+        ety = e.ty if e.ty != "char" else "str"
+        if e.ty == "char":
+            e = self.coerce(e, "str", n)
+        if not e.mon and "←" not in e.code:
+            return E("(%s.map fun %s => %s)" % (paren(it.sub()), self.ln(var), e.code), lst(ety), it.mon and False)
+        return E("%s.mapM fun %s => do return %s" % (paren(it.sub()), self.ln(var), e.sub()), lst(ety), True)
+
     def e_IfExp(self, n):
         """`a if c else b`: only the chosen operand is evaluated"""
         c = self.truthy(self.expr(n.test), n.test)
@@ -1704,6 +1845,8 @@ class FnTrans:
             a = self.expr(args[0])
             if a.ty == lst("any"):
                 a = E("([] : List Str)", lst("str"))
+            if a.ty == lst(opt("str")):
+                return E("Py.joinOpt %s %s" % (paren(sep.sub()), paren(a.sub())), "str", True)
             if a.ty != lst("str"):
                 raise self.err(n, "join of a %s" % (a.ty,))
             return E("Py.join %s %s" % (paren(sep.sub()), paren(a.sub())), "str")
@@ -1726,6 +1869,7 @@ class FnTrans:
         raise self.err(n, "no rule for method .%s on str" % m)
 
     def call_translated(self, n, f, fname, args, kws):
+        is_ctor = False
         if isinstance(f, ast.Attribute) and self.is_self_method(f):
             qual = "%s.%s" % (self.spec.cls, f.attr)
             is_method = True
@@ -1735,6 +1879,10 @@ class FnTrans:
             local = self.spec.qualname + "." + f.id
             if any(d.spec.qualname == local for d in self.done):
                 qual = local
+            elif f.id in CLASSES and any(d.spec.qualname == f.id + ".__init__" for d in self.done) \
+                    and CLASSES[f.id]["module"] == self.spec.module:
+                qual = f.id + ".__init__"      # `Cls(args)`: a new object, initialised by the translated `__init__`
+                is_ctor = True
         else:
             raise self.err(n, "call of an unknown callee")
         # bind arguments by name to find specialisations
@@ -1804,7 +1952,9 @@ class FnTrans:
         if getattr(d, "stateful", False):
             self.stateful = True
         parts = [d.lean_name] + [x.param for x in d.ext_params]
-        if d.spec.cls:
+        if d.spec.cls and is_ctor:
+            pass
+        elif d.spec.cls:
             if not is_method:
                 raise self.err(n, "method called without self")
             if self.in_init and set(self.cls["attrs"]) - self.self_assigned:
@@ -1821,6 +1971,10 @@ class FnTrans:
             e = self.coerce_arg(e, t, bound[p])
             parts.append(paren(e.sub()))
         code = " ".join(parts)
+        if is_ctor:
+            if iter_args:
+                raise self.err(n, "iterator argument to a constructor")
+            return E(code, ("self", d.spec.cls), True)
         return CallE(code, d.ret, True, d, iter_args)
 
     # ---------- message expressions: evaluated for their exceptions only
@@ -2026,6 +2180,16 @@ class FnTrans:
                     e = self.resolve_next(e, depth, lines)
                 lines.append(self.ind(depth, "let _ ← %s" % e.code if e.mon else "let _ := %s" % e.code))
             return lines
+        if fname == "warnings.warn" and v.args and set(k.arg for k in v.keywords) <= {"stacklevel"}:
+            # the warning itself is not kept (a filter that turns it into an exception is outside the translation);
+            # its message is evaluated
+            outs = []
+            self.effects(v.args[0], outs)
+            lines = []
+            for e in outs:
+                e = self.bind_call(e, depth, lines)
+                lines.append(self.ind(depth, "let _ ← %s" % e.code if e.mon else "let _ := %s" % e.code))
+            return lines
         if isinstance(v.func, ast.Attribute) and v.func.attr == "append" and isinstance(v.func.value, ast.Name) \
                 and len(v.args) == 1 and not v.keywords:
             name = v.func.value.id
@@ -2065,6 +2229,8 @@ class FnTrans:
         """`name = e`"""
         if name in self.consts:
             raise self.err(node, "assignment to a specialised parameter")
+        if name in self.closure_captured:
+            raise self.err(node, "assignment to a local after a closure over it was created (the closure would see the new value)")
         if name in self.spec.maybe_unbound:
             t = e.ty if e.ty != "char" else "str"
             if name in self.maybe_types and self.maybe_types[name] != t:
@@ -2087,7 +2253,7 @@ class FnTrans:
             except TransError:
                 # the name is rebound to a value of another type: a new Lean variable that shadows the old one.  Only
                 # in the outermost block of the function (inside a branch the shadowing would end with the branch).
-                if depth != 1 or name in self.hoist or self.loop_depth:
+                if depth != 1 or self.loop_depth:
                     raise
                 if e.ty in ("none", "char") or e.ty == lst("any"):
                     raise
@@ -2392,6 +2558,11 @@ class FnTrans:
         if isinstance(test, ast.UnaryOp) and isinstance(test.op, ast.Not):
             v = self.static_truth(test.operand)
             return None if v is None else not v
+        if isinstance(test, ast.Compare) and len(test.ops) == 1 and isinstance(test.ops[0], (ast.Eq, ast.NotEq)) \
+                and isinstance(test.left, ast.Name) and test.left.id in self.consts and isinstance(self.consts[test.left.id], str) \
+                and isinstance(test.comparators[0], ast.Constant) and isinstance(test.comparators[0].value, str):
+            eq = self.consts[test.left.id] == test.comparators[0].value
+            return eq if isinstance(test.ops[0], ast.Eq) else not eq
         return None
 
     def block_inline(self, stmts, depth):
@@ -2726,7 +2897,7 @@ def _as_load(t):
     return t2
 
 
-FNREF_IMPORTS = {"urlopen"}
+FNREF_IMPORTS = {"urlopen", "open"}
 NAMED_HANDLERS = {"requests.exceptions.Timeout", "sqlite3.IntegrityError", "FloatingPointError"}
 NAMED_NOT_SUBCLASS = {"ValueError": {"xml.ParseError", "requests.exceptions.Timeout", "OverflowError"}}
 
